@@ -143,6 +143,131 @@ def norm_src(node):
         return ast.dump(node)
 
 
+def canon_locals(func):
+    """Rename-invariant names for the local variables of a function.
+
+    A local is named after the canonical text of its first defining expression (recursively, so the name does not depend
+    on the spelling of any local, nor on statement order): 'L' + 6 hex digits.  Parameters, attributes, globals and names
+    bound by nested def/class keep their names (they are interface).  Locals whose definition cannot be resolved
+    (cycles, augmented first binding) fall back to their binding order."""
+    import hashlib
+
+    params = {a.arg for a in func.args.args + func.args.kwonlyargs + func.args.posonlyargs}
+    if func.args.vararg:
+        params.add(func.args.vararg.arg)
+    if func.args.kwarg:
+        params.add(func.args.kwarg.arg)
+    keep = set(params)
+    for x in ast.walk(func):
+        if isinstance(x, (ast.Global, ast.Nonlocal)):
+            keep |= set(x.names)
+        if isinstance(x, (ast.FunctionDef, ast.AsyncFunctionDef, ast.ClassDef)) and x is not func:
+            keep.add(x.name)
+    first = {}  # local -> (position, defining expression or None, tag)
+
+    def bind(target, value, tag, pos):
+        if isinstance(target, ast.Name):
+            if target.id not in keep and (target.id not in first or pos < first[target.id][0]):
+                first[target.id] = (pos, value, tag)
+        elif isinstance(target, (ast.Tuple, ast.List)):
+            if isinstance(value, (ast.Tuple, ast.List)) and len(value.elts) == len(target.elts):
+                for t, v in zip(target.elts, value.elts):
+                    bind(t, v, tag, pos)
+            else:
+                for i, t in enumerate(target.elts):
+                    bind(t, value, f"{tag}[{i}]", pos)
+        elif isinstance(target, ast.Starred):
+            bind(target.value, value, tag + "*", pos)
+
+    for x in ast.walk(func):
+        pos = (getattr(x, "lineno", 0), getattr(x, "col_offset", 0))
+        if isinstance(x, ast.Assign):
+            for t in x.targets:
+                bind(t, x.value, "=", pos)
+        elif isinstance(x, ast.AnnAssign) and x.value is not None:
+            bind(x.target, x.value, "=", pos)
+        elif isinstance(x, ast.AugAssign):
+            bind(x.target, None, "aug", pos)
+        elif isinstance(x, (ast.For, ast.AsyncFor)):
+            bind(x.target, x.iter, "for", pos)
+        elif isinstance(x, ast.comprehension):
+            bind(x.target, x.iter, "for", (x.target.lineno, x.target.col_offset))
+        elif isinstance(x, ast.withitem) and x.optional_vars is not None:
+            bind(x.optional_vars, x.context_expr, "with", (x.optional_vars.lineno, x.optional_vars.col_offset))
+        elif isinstance(x, ast.NamedExpr):
+            bind(x.target, x.value, ":=", pos)
+        elif isinstance(x, ast.ExceptHandler) and x.name and x.name not in keep:
+            first.setdefault(x.name, (pos, None, "except"))
+    out = {}
+    busy = set()
+    order = {nm: i for i, nm in enumerate(sorted(first, key=lambda n: first[n][0]))}
+
+    def name_of(nm):
+        if nm in out:
+            return out[nm]
+        if nm in busy:
+            return None
+        busy.add(nm)
+        pos, value, tag = first[nm]
+        res = None
+        if value is not None:
+            sub = {}
+            ok = True
+            for y in ast.walk(value):
+                if isinstance(y, ast.Name) and y.id in first and y.id != nm:
+                    c = name_of(y.id)
+                    if c is None:
+                        ok = False
+                        break
+                    sub[y.id] = c
+                elif isinstance(y, ast.Name) and y.id == nm:
+                    ok = False
+                    break
+            if ok:
+                txt = tag + norm_src(_Renamer(sub).visit(fresh_copy(value)))
+                res = "L" + hashlib.sha1(txt.encode()).hexdigest()[:6]
+        busy.discard(nm)
+        if res is None:
+            res = f"v{order[nm] + 1}"
+        out[nm] = res
+        return res
+
+    for nm in first:
+        name_of(nm)
+    # distinct locals with identical definitions (x = 0; y = 0) must stay distinct
+    seen = {}
+    for nm in sorted(out, key=lambda n: first[n][0]):
+        c = out[nm]
+        if c in seen:
+            seen[c] += 1
+            out[nm] = f"{c}_{seen[c]}"
+        else:
+            seen[c] = 1
+    return out
+
+
+def fresh_copy(node):
+    """Parent-free copy of an expression or statement (nodes of Repo trees carry _parent links, which deepcopy would follow)."""
+    src = ast.unparse(node)
+    try:
+        return ast.parse(src, mode="eval").body
+    except SyntaxError:
+        return ast.parse(src).body[0]
+
+
+class _Renamer(ast.NodeTransformer):
+    def __init__(self, mapping):
+        self.mapping = mapping
+
+    def visit_Name(self, n):
+        return ast.copy_location(ast.Name(id=self.mapping.get(n.id, n.id), ctx=n.ctx), n)
+
+
+def canon_src(node, mapping):
+    """norm_src of the node with local variables replaced by their canonical names (see canon_locals)."""
+    return norm_src(_Renamer(mapping).visit(fresh_copy(node)))
+
+
 def enclosing_function(node):
     names = []
     n = getattr(node, "_parent", None)
